@@ -22,7 +22,7 @@ type c15replay struct {
 }
 
 var c15ints = []int{0, 1, 255, 65535, 1<<31 - 1, 1<<63 - 1}
-var c15names = []string{"a", "snake_case", "any", "import", "message", "options", "struct", "service", "subservice"}
+var c15names = []string{"a", "snake_case", "any", "import", "message", "options", "struct", "service", "subservice", "enum", "oneway"}
 
 func ty(name string) *syntax.Type { return &syntax.Type{Kind: syntax.GetKind(name), Name: name} }
 func tyAny() *syntax.Type         { return &syntax.Type{Kind: syntax.KindAny, Name: "any"} }
@@ -303,7 +303,11 @@ func (c *c15s) arbitrary(src, what string) {
 	if len(gotStrs) == len(wantStrs) {
 		for i, w := range wantStrs {
 			u, uerr := strconv.Unquote(w)
-			if uerr != nil || (gotStrs[i] != u && gotStrs[i] != strings.Trim(w, "\"")) {
+			raw := w
+			if len(w) >= 2 {
+				raw = w[1 : len(w)-1]
+			}
+			if uerr != nil || (gotStrs[i] != u && gotStrs[i] != raw) {
 				c.r.Violate("string literal recorded with a different value", fmt.Sprintf("%s\nsource: %q\nliteral %s is recorded as %q", what, src, w, gotStrs[i]), c15replay{"arbitrary", src})
 				return
 			}
@@ -348,6 +352,8 @@ var c15tokens = []string{
 	"(", ")", "{", "}", "[", "]", ";", ",", ".", "=", "<", "-", ">",
 	"1", "0", "0x10", "010", "0b11", "1_000", "99999999999999999999", "1.5", "'c'",
 	`"s"`, "`raw`", `"abc`, "é", "/*c*/", "@",
+	// private-use runes in the range of goyacc's token numbers (57344+), a string ending in an escaped quote
+	"\ue002", "\ue00b", "\ue00c", `"ab\""`, `"`,
 }
 
 func c15(a *vlib.Args) {
